@@ -35,11 +35,13 @@ impl Stack {
     }
 
 //@fn src/stack.rs Stack::reset
+//@props C01 C02 C03 C05 C06 C10 C11 C17
 //@contract
     ensures final(self).view() == Seq::<Kind>::empty(),
 //@endfn
 
 //@fn src/stack.rs Stack::push
+//@props C01 C02 C03 C05 C06 C10 C11 C17
 //@contract
     ensures final(self).view() == old(self).view().push(kind_of(value)),
 //@after 1 self.inner.push(
@@ -47,6 +49,7 @@ impl Stack {
 //@endfn
 
 //@fn src/stack.rs Stack::pop
+//@props C01 C02 C03 C05 C06 C10 C11 C17
 //@ret r
 //@contract
     ensures
@@ -56,6 +59,7 @@ impl Stack {
 //@endfn
 
 //@fn src/stack.rs Stack::peek
+//@props C01 C02 C03 C05 C06 C10 C11 C17
 //@ret r
 //@contract
     ensures
@@ -64,6 +68,7 @@ impl Stack {
 //@endfn
 
 //@fn src/stack.rs Stack::len
+//@props C01 C02 C03 C05 C06 C10 C11 C17
 //@ret r
 //@contract
     ensures r == self.view().len(),
@@ -101,13 +106,18 @@ pub open spec fn arg_link(op: OpcodeKind, arg_bytes: Option<&[u8]>, a: RefArg) -
 impl Generator {
     pub open spec fn view(&self) -> Seq<Kind> { self.state.stack.view() }
 
-    /// simulated memo vs reference memo: same index set, compatible kinds, same size
-    pub open spec fn memo_rel(&self, r: RefState) -> bool {
-        &&& self.state.memo@.dom().finite()
+    /// simulated memo vs reference memo: same index set and size
+    pub open spec fn memo_dom_rel(&self, r: RefState) -> bool {
         &&& forall|k: usize| #[trigger] self.state.memo@.dom().contains(k) <==> r.memo.dom().contains(k as int)
         &&& forall|k: int| #[trigger] r.memo.dom().contains(k) ==> 0 <= k <= usize::MAX
-        &&& forall|k: usize| #[trigger] self.state.memo@.dom().contains(k) ==> compat(self.state.memo@[k].kind(), r.memo[k as int])
         &&& self.state.memo@.len() == r.memo_len
+    }
+    /// ... and compatible kinds
+    pub open spec fn memo_kinds_rel(&self, r: RefState) -> bool {
+        forall|k: usize| #[trigger] self.state.memo@.dom().contains(k) ==> compat(self.state.memo@[k].kind(), r.memo[k as int])
+    }
+    pub open spec fn memo_rel(&self, r: RefState) -> bool {
+        self.memo_dom_rel(r) && self.memo_kinds_rel(r)
     }
 
     /// C17: the simulation mirrors the reference machine
@@ -116,6 +126,7 @@ impl Generator {
     }
 
 //@fn src/generator/utils.rs Generator::peek
+//@props C01 C02 C03 C05 C06 C10 C11 C17
 //@ret r
 //@contract
     ensures
@@ -124,6 +135,7 @@ impl Generator {
 //@endfn
 
 //@fn src/generator/utils.rs Generator::push
+//@props C01 C02 C03 C05 C06 C10 C11 C17
 //@contract
     ensures
         final(self).view() == old(self).view().push(kind_of(value)),
@@ -133,6 +145,7 @@ impl Generator {
 //@endfn
 
 //@fn src/generator/utils.rs Generator::pop
+//@props C01 C02 C03 C05 C06 C10 C11 C17
 //@ret r
 //@contract
     ensures
@@ -145,6 +158,7 @@ impl Generator {
 //@endfn
 
 //@fn src/generator/utils.rs Generator::get
+//@props C01 C02 C03 C05 C06 C10 C11 C17
 //@ret r
 //@contract
     ensures
@@ -153,6 +167,7 @@ impl Generator {
 //@endfn
 
 //@fn src/generator/utils.rs Generator::put
+//@props C01 C02 C03 C05 C06 C10 C11 C17
 //@contract
     ensures
         final(self).state.memo@.dom() == old(self).state.memo@.dom().insert(index),
@@ -164,6 +179,7 @@ impl Generator {
 //@endfn
 
 //@fn src/generator/utils.rs Generator::peek_at
+//@props C01 C02 C03 C05 C06 C10 C11 C17
 //@ret r
 //@contract
     ensures
@@ -172,36 +188,42 @@ impl Generator {
 //@endfn
 
 //@fn src/generator/utils.rs Generator::is_list_at
+//@props C01 C02 C03 C05 C06 C10 C11 C17
 //@ret r
 //@contract
     ensures r == (depth < self.view().len() && at(self.view(), depth as int) == Kind::List),
 //@endfn
 
 //@fn src/generator/utils.rs Generator::is_dict_at
+//@props C01 C02 C03 C05 C06 C10 C11 C17
 //@ret r
 //@contract
     ensures r == (depth < self.view().len() && at(self.view(), depth as int) == Kind::Dict),
 //@endfn
 
 //@fn src/generator/utils.rs Generator::is_tuple_at
+//@props C01 C02 C03 C05 C06 C10 C11 C17
 //@ret r
 //@contract
     ensures r == (depth < self.view().len() && at(self.view(), depth as int) == Kind::Tuple),
 //@endfn
 
 //@fn src/generator/utils.rs Generator::is_instance_at
+//@props C01 C02 C03 C05 C06 C10 C11 C17
 //@ret r
 //@contract
     ensures r == (depth < self.view().len() && at(self.view(), depth as int) == Kind::Instance),
 //@endfn
 
 //@fn src/generator/utils.rs Generator::is_string_at
+//@props C01 C02 C03 C05 C06 C10 C11 C17
 //@ret r
 //@contract
     ensures r == (depth < self.view().len() && at(self.view(), depth as int) == Kind::String),
 //@endfn
 
 //@fn src/generator/utils.rs Generator::is_callable_at
+//@props C01 C02 C03 C05 C06 C10 C11 C17
 //@ret r
 //@contract
     ensures r == (depth < self.view().len()
@@ -209,6 +231,7 @@ impl Generator {
 //@endfn
 
 //@fn src/generator/utils.rs Generator::has_mark
+//@props C01 C02 C03 C05 C06 C10 C11 C17
 //@ret r
 //@rewrite R3
 //@contract
@@ -226,6 +249,7 @@ impl Generator {
 //@endfn
 
 //@fn src/generator/utils.rs Generator::count_items_to_mark
+//@props C01 C02 C03 C05 C06 C10 C11 C17
 //@ret r
 //@rewrite R2
 //@contract
@@ -244,6 +268,7 @@ impl Generator {
 //@endfn
 
 //@fn src/generator/utils.rs Generator::is_list_at_mark
+//@props C01 C02 C03 C05 C06 C10 C11 C17
 //@ret r
 //@rewrite R1
 //@contract
@@ -260,6 +285,7 @@ impl Generator {
 //@endfn
 
 //@fn src/generator/utils.rs Generator::is_dict_at_mark
+//@props C01 C02 C03 C05 C06 C10 C11 C17
 //@ret r
 //@rewrite R1
 //@contract
@@ -276,6 +302,7 @@ impl Generator {
 //@endfn
 
 //@fn src/generator/utils.rs Generator::is_set_at_mark
+//@props C01 C02 C03 C05 C06 C10 C11 C17
 //@ret r
 //@rewrite R1
 //@contract
@@ -292,6 +319,7 @@ impl Generator {
 //@endfn
 
 //@fn src/generator/utils.rs Generator::is_callable_above_mark
+//@props C01 C02 C03 C05 C06 C10 C11 C17
 //@ret r
 //@rewrite R1
 //@contract
@@ -335,10 +363,20 @@ impl Generator {
 //@rewrite R11?
 //@prelude
         proof { lemma_top_mark_compat(self.view(), r.stack); lemma_top_mark_props(r.stack); }
+//@props C01 C02 C03 C05 C06 C10 C17
 //@contract
     requires
         self.rel(r),
     ensures
+        res ==> opcode != OpcodeKind::Stop && opcode != OpcodeKind::Frame, // @C01 @C06
+        res ==> ref_pre_stack(opcode, r), // @C01
+        res && !self.unsafe_mutations ==> ref_pre_kind(opcode, r), // @C03
+        res && is_get(opcode) ==> self.state.memo@.len() > 0, // @C02
+        res && (is_put(opcode) || opcode == OpcodeKind::Memoize) ==> r.stack.len() >= 1 && r.stack.last() != Kind::Mark, // @C02
+        res && (opcode == OpcodeKind::Ext1 || opcode == OpcodeKind::Ext2 || opcode == OpcodeKind::Ext4) ==> self.allow_ext_opcodes, // @C10
+        res && (opcode == OpcodeKind::NextBuffer || opcode == OpcodeKind::ReadOnlyBuffer) ==> self.allow_buffer_opcodes, // @C10
+        res && opcode == OpcodeKind::Proto ==> !self.state.proto_emitted, // @C05
+        res ==> self.sim_pre(opcode), // @C17
         res ==> self.guard_ok(opcode, r),
 //@arm SetItems
 //@prelude
@@ -398,6 +436,7 @@ impl Generator {
 
 //@arms src/generator/stack_ops.rs Generator::process_stack_ops opcode
 //@ghost Ghost(r): Ghost<RefState>, Ghost(a): Ghost<RefArg>
+//@props C01 C02 C03 C17
 //@prelude
         proof { lemma_top_mark_compat(self.view(), r.stack); lemma_top_mark_props(r.stack); }
 //@contract
@@ -409,9 +448,13 @@ impl Generator {
         old(self).sim_pre(opcode),
         arg_link(opcode, arg_bytes, a),
     ensures
+        shape_eq(final(self).view(), ref_step(opcode, a, r).stack), // @C01 @C03 @C17
+        kinds_ok(final(self).view(), ref_step(opcode, a, r).stack), // @C03 @C17
+        final(self).memo_dom_rel(ref_step(opcode, a, r)), // @C02 @C17
+        final(self).memo_kinds_rel(ref_step(opcode, a, r)), // @C03 @C17
         final(self).rel(ref_step(opcode, a, r)),
-        final(self).output == old(self).output,
-        final(self).same_config(old(self)),
+        final(self).output == old(self).output, // @C04 @C06
+        final(self).same_config(old(self)), // @C05 @C10
 //@arm Dup
 //@after 1 self.state.stack.inner.push(top.clone());
                         assert(self.view() =~= old(self).view().push(old(self).view().last()));
